@@ -23,6 +23,7 @@ def name_tok(n):
     if k == 'dotdot': return '..'
     if k == 'slash': return 's%d/x' % n[1]
     if k == 'bad': return 'BAD%d' % n[1]
+    if k in ODD_NAMES: return ODD_NAMES[k][0] % n[1:]
     return 'n%d' % n[1]
 def name_coq(n):
     k = n[0]
@@ -30,8 +31,26 @@ def name_coq(n):
     if k == 'dotdot': return 'NDotDot'
     if k == 'slash': return '(NSlash %d)' % n[1]
     if k == 'bad': return '(NBad %d)' % n[1]
+    if k in ODD_NAMES: return '(NNorm %d)' % odd_key(n)
     return '(NNorm %d)' % n[1]
 def name_safe(n): return n[0] not in ('dot', 'dotdot', 'slash')
+# Unusual but ordinary names (audit6): the model knows a name only as a key, so every distinct byte string gets its own key.
+# kind -> (rendering, key base): upper-case twin of n<k>, "."- and ".."-prefixed names, "...", the empty name (harness token EMPTY).
+# Together with n1 / n10 / n100 (proper prefixes of one another) these are names that differ from a mount path component, from
+# "." and from ".." only by case, by a prefix or by a suffix -- none of them may be confused with it.
+ODD_NAMES = {'up': ('N%d', 200000), 'hid': ('.n%d', 300000), 'hid2': ('..n%d', 400000), 'dots': ('...', 500000), 'empty': ('EMPTY', 600000)}
+def odd_key(n): return ODD_NAMES[n[0]][1] + (n[1] if len(n) > 1 else 0)
+ODD_COMP = {'U': 'up', 'H': 'hid', 'H2': 'hid2', 'D3': 'dots'}          # mount path components of the same kinds
+def comp_tok(c):
+    if c[0] == 'P': return '..'
+    if c[0] in ODD_COMP: return name_tok((ODD_COMP[c[0]],) + tuple(c[1:]))
+    return 'n%d' % c[1]
+def name_of_key(k):
+    """the name (as a request name tuple) of a pseudo directory known by its key"""
+    for kind, (fmt, base) in ODD_NAMES.items():
+        if base <= k < base + 100000: return (kind, k - base) if '%d' in fmt else (kind,)
+    return ('norm', k)
+def comp_key(c): return odd_key((ODD_COMP[c[0]],) + tuple(c[1:])) if c[0] in ODD_COMP else c[1]
 
 def mk_path(rng, comps, rooted=True, noise=True):
     """comps: list of ('N', k) | ('P',) -> {'s': rendering, 'rooted':..., 'comps':...}.  The rendering may contain
@@ -40,7 +59,7 @@ def mk_path(rng, comps, rooted=True, noise=True):
     for c in comps:
         if noise and rng.random() < 0.08: parts.append('.')
         if noise and rng.random() < 0.05: parts.append('')
-        parts.append('..' if c[0] == 'P' else 'n%d' % c[1])
+        parts.append(comp_tok(c))
     s = '/'.join(parts)
     if rooted: s = '/' + s
     elif not s or s.startswith('/'): s = 'n999999' if not s else s.lstrip('/')
@@ -50,13 +69,13 @@ def mk_path(rng, comps, rooted=True, noise=True):
     return {'s': s, 'rooted': rooted, 'comps': [tuple(c) for c in comps]}
 def path_coq(p):
     return '(mkPath %s [%s])' % ('true' if p['rooted'] else 'false',
-                                '; '.join('CParent' if c[0] == 'P' else '(CNorm %d)' % c[1] for c in p['comps']))
+                                '; '.join('CParent' if c[0] == 'P' else '(CNorm %d)' % comp_key(c) for c in p['comps']))
 def canon(comps):
     out = []
     for c in comps:
         if c[0] == 'P':
             if out: out.pop()
-        else: out.append(c[1])
+        else: out.append(comp_key(c))
     return tuple(out)
 
 # ------------------------------------------------------------------ step rendering
@@ -112,7 +131,9 @@ def step_tok(st):
     if k == 'I': return 'I %d %d' % (st['opts'], st['ierr'])
     if k == 'D': return 'D'
     if k == 'Q': return 'Q'
-    if k == 'S': return 'S %d %s' % (st['ver'], st['fresh'])
+    if k == 'S':
+        sel = st.get('order')          # None: every attached mount in index order; else positions in that list (a permutation or a subset)
+        return 'S %d %s' % (st['ver'], st['fresh']) + ('' if sel is None else ' ' + (','.join(str(i) for i in sel) if sel else 'none'))
     r = st
     return 'R %s %d %d %d %d %d %s %s %d %d %d %d %d %s' % (('W:' if r.get('wrap') else '') + {'a': 'a', 'y': 'y'}.get(r.get('mode'), '') + r['op'], r['hdr'], r['uid'], r['gid'], r['ino'], r['ino2'], name_tok(r['name']),
         name_tok(r['name2']), r['auid'], r['agid'], r['size'], r['offset'], r['limit'], ans_tok(r['ans']))
@@ -155,7 +176,11 @@ def num(tok):
     return TWO64 if v < 0 else v
 def name_key(tok):
     m = re.fullmatch(r'n(\d+)', tok)
-    return int(m.group(1)) if m else TWO64
+    if m: return int(m.group(1))
+    for kind, (fmt, base) in ODD_NAMES.items():          # names of pseudo directories listed by readdir
+        m = re.fullmatch(re.escape(fmt).replace('%d', r'(\d+)'), tok)
+        if m and kind != 'empty': return base + (int(m.group(1)) if m.groups() else 0)
+    return TWO64
 
 def parse_obs(st, line, tb):
     """harness output line for step st -> (flat list of ints as Model/VfsRun.v serialises it, structured dict)"""
@@ -251,12 +276,12 @@ class Case:
         flat, o = parse_obs(st, line, self.tb)
         if st['k'] == 'S':
             st['reattach'] = []
+            live = sorted(self.mounts.values(), key=lambda m: m['idx'])
+            if st.get('order') is not None: live = [live[i] for i in st['order']]
             if o['status'] == 'ok':
-                live = sorted(self.mounts.values(), key=lambda m: m['idx'])
                 for (b, ix, ptxt, code), m in zip(o['reattached'], live):
                     st['reattach'].append((b, ix, m['path'], m['ans']))
             else:
-                live = sorted(self.mounts.values(), key=lambda m: m['idx'])
                 st['reattach'] = [(m['bid'], m['idx'], m['path'], m['ans']) for m in live]
         self.steps.append(st); self.flat.append(flat); self.obs.append(o)
         if o['status'] == 'panic': self.dead = True
@@ -323,7 +348,10 @@ def gen_mapping(rng, wf=True):
 # per-mount mappings at the edge of the notion: an explicit override with an empty range ("translate nothing on this mount",
 # which must hide the global mapping), identity, range 1, the largest range, and triples whose internal+range or
 # external+range leaves u32 (translation may overflow: panic in a debug build)
-DEGENERATE_MAPS = [(0, 0, 0), (5, 7, 0), (1000, 1000, 500), (3, 9, 1), (0, 1, U32 - 1)]
+DEGENERATE_MAPS = [(0, 0, 0), (5, 7, 0), (1000, 1000, 500), (3, 9, 1), (0, 1, U32 - 1),
+                   # audit6: the largest well-formed ranges with BOTH bases non-zero, either order: ids at the top of the range are
+                   # within u32 before and after translation, but any other order of the additions (value + to - from) overflows
+                   (1000, 2000, U32 - 2000), (2000, 1000, U32 - 2000)][:5 if os.environ.get('VFS_AUDIT6_OFF') else None]
 OVERFLOW_MAPS = [(U32 - 10, 5, 100), (5, U32 - 10, 100)]
 
 def check_model(name, cases, ev, broken, shard=40, max_report=3):
@@ -508,7 +536,7 @@ def replay_generic(prop, path, features=None):
         inp = it.get('input') or it.get('case')
         if not inp or 'harness_input' not in inp: continue
         r, o = run([os.path.join(bindir, 'vfs')], input='\n'.join(inp['harness_input']) + '\n', timeout=120)
-        lines = [l for l in o.split('\n') if l and not l.startswith('CASE')]
+        lines = [l.strip() for l in o.split('\n') if l and not l.startswith('CASE')]      # observations are recorded stripped
         same = lines == inp.get('observed', [])[:len(lines)] and len(lines) >= len(inp.get('observed', []))
         print('--- %s' % (it.get('what') or it.get('name') or '')[:200])
         for a, b in list(zip(inp['harness_input'][1:], lines))[-6:]: print('   %s\n      => %s' % (a[:200], b[:300]))
